@@ -255,10 +255,35 @@ func cmdEngine(args []string) int {
 			g.enabled = cr.chance(2, 3)
 		}
 		o := engineOpts{cancelAfterMs: -1, hang: hang}
+		if cancelMode == "random" && i%10 == 9 {
+			// targeted shape: several steps are executing when the caller cancels; their plugins get the cancel signal and
+			// carry on; their closure timeouts are small (one of them the valid minimum 0), so the run has to be over after
+			// the grace period plus those timeouts however many such steps there are
+			n := 2 + cr.intn(3)
+			wf := &AWf{Outputs: map[string]AIn{}, InputFields: []AField{{Name: "name", Type: "string", Required: true}}}
+			beh := map[string]Behaviour{}
+			out := AIn{K: "map"}
+			for k := 0; k < n; k++ {
+				id := fmt.Sprintf("z%d", k)
+				ct := []string{"0", "0", "50", "100"}[cr.intn(4)]
+				wf.Steps = append(wf.Steps, AStep{ID: id, Kind: "plugin", PlugStep: "op", Src: id,
+					Fields: map[string]AIn{"input": amap("s", lit("x")), "closure_wait_timeout": lit(ct)}})
+				beh[id] = Behaviour{Outcome: "hang", IgnoreCancel: true}
+				out.put(id, expr(fmt.Sprintf("$.steps.%s.outputs.success.s", id)))
+			}
+			wf.OutputIDs = []string{"success"}
+			wf.Outputs["success"] = out
+			res := execEngineCase(fmt.Sprintf("engine-%d-%d", c.seed, i), wf, wf.yaml(nil, nil), beh, map[string]any{"name": "nm"},
+				engineOpts{cancelAfterMs: 20 + cr.intn(40), hang: true})
+			res["shape"] = "stubborn-plugins-small-closure-timeouts"
+			w.emit(res)
+			continue
+		}
 		if cancelMode == "random" {
 			o.cancelAfterMs = cr.intn(60)
 			o.hang = true
 			g.closureMs = 100 + 50*cr.intn(4)
+			g.closureZero = true
 		}
 		w.emit(runEngineCase(cr, fmt.Sprintf("engine-%d-%d", c.seed, i), g, o))
 	}
